@@ -67,7 +67,22 @@ def check(run):
         for _ in range(rng.randrange(1, 4)):
             ops += [("EH", mask()), ("R", tgt, True)] + batch(rng.randrange(1, 5))
         sessions.append(refexp.make_session({"maj": 1, "min": 0, "priv": 1}, [bp], ops, target=tgt))
+    # single-block sessions for the block-building model (all hints random, big block)
+    nb0 = len(sessions)
+    for _ in range(500 if quick else 20000):
+        tps = rng.choice([1, 1000, 10**6, 10**9])
+        bp = {"tps": tps, "max": 10000, "qrh": rng.choice([G.ALL_QRH, rng.randrange(2**18)]), "sigh": rng.choice([G.ALL_SIGH, rng.randrange(2**17)]),
+              "rrh": rng.randrange(4), "odh": rng.randrange(4)}
+        pools = G.Pools(rng)
+        ops = []
+        for _ in range(rng.randrange(1, 9)):
+            k = rng.random()
+            st = G.gen_stats(rng) if rng.random() < 0.3 else None
+            ops.append(("Q", G.gen_qr(rng, pools, full=rng.random() < 0.5, tps=tps), st) if k < 0.6 else
+                       ("A", G.gen_aec(rng, pools), st) if k < 0.8 else ("M", G.gen_mm(rng, pools, p_present=0.7, tps=tps), st))
+        sessions.append(refexp.make_session({"maj": 1, "min": 0, "priv": 1}, [bp], ops))
     res = E.run_sessions(run, sessions)
+    E.judge_builder(run, sessions[nb0:], res[nb0:])
     seen = set()
     for s, r in zip(sessions, res):
         run.case(s[0][:300], True, key=s[0])
